@@ -41,6 +41,7 @@ type Case struct {
 	Chunks     []int      `json:"chunks"`   // stdin chunk sizes, cyclic; empty = one write
 	TrailingNL bool       `json:"trailing_newline"`
 	FileName   string     `json:"file_name"`
+	Split      []string   `json:"split,omitempty"` // channel of script, variables, balances, metadata in the "split" configuration
 	AbsPath    bool       `json:"abs_path"`
 }
 
@@ -434,12 +435,43 @@ func executeRun(c Case, bin, dir string, res *Result) {
 			write("m.json", mustJSON(c.In.Meta))
 			args = append([]string{"run", "s.num", "-v", "v.json", "-b", "b.json", "-m", "m.json"}, flagArgs...)
 		case "split":
-			// disjoint parts through different channels: script by path, variables by --raw,
-			// balances by file, metadata by stdin
-			write("s.num", c.Text)
-			write("b.json", balancesJSON(c.In))
-			stdin = []byte(fmt.Sprintf(`{"metadata":%s}`, mustJSON(c.In.Meta)))
-			args = append([]string{"run", "s.num", "--raw", fmt.Sprintf(`{"variables":%s}`, mustJSON(c.In.Vars)), "-b", "b.json", "--stdin"}, flagArgs...)
+			// disjoint parts through different channels, assigned from the case: every section
+			// (script, variables, balances, metadata) travels through exactly one of
+			// raw / stdin / file, so precedence between channels is never in play
+			assign := c.Split
+			if len(assign) != 4 {
+				assign = []string{"file", "raw", "file", "stdin"}
+			}
+			sections := []string{"script", "variables", "balances", "metadata"}
+			values := []string{mustJSON(c.Text), mustJSON(c.In.Vars), balancesJSON(c.In), mustJSON(c.In.Meta)}
+			var rawParts, stdinParts []string
+			args = []string{"run"}
+			fileFlags := []string{"", "-v", "-b", "-m"}
+			fileNames := []string{"s.num", "v.json", "b.json", "m.json"}
+			for i, ch := range assign {
+				switch ch {
+				case "raw":
+					rawParts = append(rawParts, fmt.Sprintf("%q:%s", sections[i], values[i]))
+				case "stdin":
+					stdinParts = append(stdinParts, fmt.Sprintf("%q:%s", sections[i], values[i]))
+				default:
+					if i == 0 {
+						write(fileNames[0], c.Text)
+						args = append(args, fileNames[0])
+					} else {
+						write(fileNames[i], values[i])
+						args = append(args, fileFlags[i], fileNames[i])
+					}
+				}
+			}
+			if len(rawParts) > 0 {
+				args = append(args, "--raw", "{"+strings.Join(rawParts, ",")+"}")
+			}
+			if len(stdinParts) > 0 {
+				stdin = []byte("{" + strings.Join(stdinParts, ",") + "}")
+				args = append(args, "--stdin")
+			}
+			args = append(args, flagArgs...)
 		default:
 			continue
 		}
@@ -621,6 +653,9 @@ func genCase(r *rand.Rand) Case {
 		c.Channels = append(c.Channels, all[perm[i]])
 	}
 	sort.Strings(c.Channels)
+	for i := 0; i < 4; i++ {
+		c.Split = append(c.Split, core.Pick(r, []string{"raw", "stdin", "file"}))
+	}
 	switch r.IntN(4) {
 	case 0:
 		c.Chunks = []int{1}
